@@ -575,12 +575,17 @@ class TaskSem(Semantics):
                 "depcheck_at_start": self._depcheck(s),
             }
             s = s.with_fact("started", tuple(sorted(facts.items()))).with_fact("proc_alive", 1).note(node, "process started")
+            piped = any(kw.arg in ("stdout", "stderr") and (self.index.canon(kw.value, self.module) or "").endswith(".PIPE")
+                        for c in _calls(node) for kw in c.keywords if isinstance(kw.value, (ast.Name, ast.Attribute)))
+            s = s.with_fact("piped", piped)
             self.events.append(("start", node, s, facts))
         # process end
         if isinstance(node, ast.AST):
             for c in _calls(node):
                 f = c.func
                 if isinstance(f, ast.Attribute) and f.attr in ("communicate", "wait") and dotted(f.value) in self.proc_vars:
+                    if f.attr == "wait" and s.facts.get("piped") and not s.facts.get("communicated") and not s.facts.get("killed"):
+                        s = s.with_fact("wait_undrained", getattr(node, "lineno", 0)).note(node, "waits for the exit while nobody reads the output pipes")
                     s = s.with_fact("proc_alive", 0).note(node, f"process ended ({f.attr})")
                     if f.attr == "communicate":
                         s = s.with_fact("communicated", True)
